@@ -81,13 +81,13 @@ TEXT = {
     },
     "C11": {
         "technique": "Verus contracts: index_left (recursive, all lengths) against the 'first node on or after, clamped' interval rule; the closed forms against their formulas; interpolated_value bodies against rule-of-two-nodes postconditions",
-        "level_text": "Proof: index_left (monomorphic copy at i64, recursion verified with termination) returns exactly the clamped index of the interval whose right end is the first node >= the query for every strictly increasing key list of length >= 2; linear / log-linear / linear-zero-rate closed forms equal the property's formulas (f64 copies), with value-at-node and betweenness lemmas.",
-        "level_note": "Real-number model; monomorphic copies (R5); sorted keys assumed from sort_keys.",
+        "level_text": "Proof: index_left (monomorphic copy at i64, recursion verified with termination) returns exactly the clamped index of the interval whose right end is the first node >= the query for every strictly increasing key list of length >= 2; linear / log-linear / linear-zero-rate closed forms equal the property's formulas (f64 copies), with value-at-node and betweenness lemmas. CurveDF::try_new, From<Nodes> for NodesTimestamp and NodesTimestamp::sort_keys (extracted each run) store exactly the supplied (date, value) pairs re-keyed by timestamp in strictly increasing key order; lemma_node_order_irrelevant: two curves built from the same pairs supplied in any two orders store the identical node list (a key-sorted arrangement of a set of pairs is unique; re-keying preserves permutations).",
+        "level_note": "Real-number model; monomorphic copies (R5); IndexMap::sort_keys / from_iter / into_iter are assumed indexmap contracts.",
         "design_ref": "DESIGN.md §7 C11",
     },
     "C12": {
         "technique": "Verus: the closed forms re-verified at Dual and Dual2 against bin1_post/bin2_post with the formula's true partial derivatives (composition of the verified operator contracts)",
-        "level_text": "Proof (partial scope): CurveDF::set_ad_order (all nine arms, body extracted each run) keeps keys, their order and every node value, leaves the curve untouched when the order is unchanged, tags node i of a float curve with the i-th variable tag at unit sensitivity (zero Hessian) and keeps names on One<->Two switches; value preservation is transitive, hence an invariant of any switch history; index_value is Err without a base, 0 before the first node, else base / looked-up value; the linear rule at Dual and Dual2 returns the formula's value with gradient (1-w)*grad(y1) + w*grad(y2) and the matching half-Hessian (exact sensitivities to the two nodes used, zero to all others).",
+        "level_text": "Proof (partial scope): CurveDF::set_ad_order (all nine arms, body extracted each run) keeps keys, their order and every node value, leaves the curve untouched when the order is unchanged, tags node i of a float curve with the i-th variable tag at unit sensitivity (zero Hessian) and keeps names on One<->Two switches; get_variable_tags (extracted each run) returns, at position i, the concatenation of the id and the decimal rendering of i, for every length; value preservation is transitive, hence an invariant of any switch history; index_value is Err without a base, 0 before the first node, else base / looked-up value; the linear rule at Dual and Dual2 returns the formula's value with gradient (1-w)*grad(y1) + w*grad(y2) and the matching half-Hessian (exact sensitivities to the two nodes used, zero to all others).",
         "level_note": "Partial: see coverage.uncovered_subclaims in the evidence for the rules / operations not yet under contract.",
         "design_ref": "DESIGN.md §7 C12",
     },
@@ -99,7 +99,7 @@ TEXT = {
     },
     "C06": {
         "technique": "Verus contracts on the extracted DateRoll impls of Cal / UnionCal / NamedCal / CalType, the four PartialEq bodies, NamedCal::try_new and parse_cals; lemmas over the contracts for order independence, name = explicit union, letter case",
-        "level_text": "Proof: the bodies are extracted from /repo each run. UnionCal::is_weekday / is_holiday / is_settlement are proved equal to: in the working week of every member / a holiday of some member / a business day of every settlement calendar (true when there are none), for arbitrary member lists; lemma_union_bus turns that into the statement's \"business day exactly when a business day in every member\"; lemma_union_order gives independence of list order. The four eq bodies return true exactly when both calendars agree on business day and settlement day for every day number from 1970-01-01 to 2200-12-31 (the zip/all over the two 84371-element date ranges is proved, not run). NamedCal::try_new is proved against named_post: lower-case, split on '|', more than two parts is Err, the first part's comma pieces become the members in order and the second part's the settlement list, any unknown piece is Err; lemmas give name == explicit union date for date and case-insensitivity.",
+        "level_text": "Proof: the bodies are extracted from /repo each run. UnionCal::is_weekday / is_holiday / is_settlement are proved equal to: in the working week of every member / a holiday of some member / a business day of every settlement calendar (true when there are none), for arbitrary member lists; lemma_union_bus turns that into the statement's \"business day exactly when a business day in every member\"; lemma_union_order gives independence of list order. The four eq bodies return true exactly when both calendars agree on business day and settlement day for every day number from 1970-01-01 to 2200-12-31 (the zip/all over the two 84371-element date ranges is proved, not run). NamedCal::try_new is proved against named_post: lower-case, split on '|', more than two parts is Err, the first part's comma pieces become the members in order and the second part's the settlement list, any unknown piece is Err; lemmas give name == explicit union date for date and case-insensitivity. Cal::new (extracted each run) stores exactly the given holidays (whatever their year) and exactly the given week-mask days, for week masks 0-6.",
         "level_note": "Strings are abstract (lower-casing and splitting uninterpreted), get_calendar_by_name is an assumed contract (C07 decides the tables behind it). Trusted: Verus/Z3, the extractor, the chrono and collection shims.",
         "design_ref": "DESIGN.md §7 C06",
     },
@@ -112,8 +112,8 @@ TEXT = {
     },
     "C10": {
         "technique": "Verus contracts on the extracted FXRates::try_new / rate / update / set_ad_order bodies; representation invariant fx_inv (matrix values == values of the matrix built from the stored quotes) required and ensured by every operation",
-        "level_text": "Proof (history clauses): the bodies are extracted from /repo each run. update: if some given pair is not stored the result is Err and *self is unchanged; otherwise the stored quote list is the old one with each given quote written over the stored quote of the same pair (fold-index loop proved equal to a last-index spec), and the matrix IS the one built directly from that list with base currencies[0]. set_ad_order (nine arms): quotes and currency index unchanged, resulting order as requested, every entry's value unchanged (projection arms proved entry by entry through from_shape_vec / into_iter / map; rebuild arms through the builder's contract), identity arms leave the matrix untouched. rate: None iff a currency is unknown, else the value of the matrix entry at the two currency indices. Every operation requires and re-establishes fx_inv, so after ANY finite sequence of updates / refused updates / order switches the rates are those of a market built directly from the latest quotes. try_new: empty list, wrong currency count and inconsistent settlement are Err; otherwise the state is exactly (quotes, currency index in first-occurrence order with the base first, builder result at order One).",
-        "level_note": "The builder create_fx_array is assumed (deterministic, order-independent values); the sensitivity clauses of C10 (names fx_<pair>, +-cross/quote) live inside it and are NOT covered. Trusted: Verus/Z3, extractor, shims.",
+        "level_text": "Proof (history clauses): the bodies are extracted from /repo each run. update: if some given pair is not stored the result is Err and *self is unchanged; otherwise the stored quote list is the old one with each given quote written over the stored quote of the same pair (fold-index loop proved equal to a last-index spec), and the matrix IS the one built directly from that list with base currencies[0]. set_ad_order (nine arms): quotes and currency index unchanged, resulting order as requested, every entry's value unchanged (projection arms proved entry by entry through from_shape_vec / into_iter / map; rebuild arms through the builder's contract), identity arms leave the matrix untouched. rate: None iff a currency is unknown, else the value of the matrix entry at the two currency indices. Every operation requires and re-establishes fx_inv, so after ANY finite sequence of updates / refused updates / order switches the rates are those of a market built directly from the latest quotes. try_new: empty list, wrong currency count and inconsistent settlement are Err; otherwise the state is exactly (quotes, currency index in first-occurrence order with the base first, builder result at order One). Naming / lifting clause: the body of create_fx_array (extracted each run as create_fx_array_lift) lifts quote i with set_order_clone under C18's table - a plain number becomes a number of the requested order carrying exactly one variable, the tag of its own pair, at unit sensitivity, a quote that already is a dual number keeps its own variables - converts with the From<&Number> conversion of the requested order and seeds and fills the matrix of that order; the fill-in's failure is passed on as Err.",
+        "level_note": "As called by the other operations the builder is an assumed deterministic function with order-independent values; its two generic callees appear in the lifted body as assumed stand-ins for the bodies proved at the abstract ring under C09; the +-cross/quote VALUES of the sensitivities are not composed into a theorem (bounded probe). Trusted: Verus/Z3, extractor, shims.",
         "design_ref": "DESIGN.md §7 C10",
     },
     "C13": {
